@@ -10,6 +10,7 @@ import (
 
 	vmcommon "github.com/ElrondNetwork/elrond-vm-common"
 	"github.com/ElrondNetwork/elrond-vm-common/parsers"
+	"github.com/ElrondNetwork/elrond-vm-common/txDataBuilder"
 
 	"verifsim/spec"
 )
@@ -86,6 +87,11 @@ type TxJSON struct {
 	Gas       uint64 `json:"gas"`
 	GasLocked uint64 `json:"gas_locked,omitempty"`
 	CallType  int    `json:"call_type,omitempty"`
+	// how Data was produced with the repository's tx-data builder: function, hex arguments and the
+	// builder method used per argument (replayed and checked by Apply, C12)
+	Fn   string   `json:"fn,omitempty"`
+	Args []string `json:"args,omitempty"`
+	Ops  []string `json:"ops,omitempty"`
 }
 
 // SCAction is one action of the system-contract model.
@@ -371,6 +377,38 @@ func (w *World) checkActivation(nd *Node, fn string, active bool) {
 	if want != active {
 		w.violate(spec.Violation{Props: spec.P("C18"), Clause: "activation", Detail: fmt.Sprintf("shard %d: %s reports active=%v with last confirmed epoch %d and activation epoch %d", nd.ID, fn, active, nd.Clock.Current, nd.Cfg.ActivationEpoch)})
 	}
+}
+
+// Rebuild runs the repository's tx-data builder over (function, arguments) with the recorded
+// builder method per argument.
+func Rebuild(fn string, args [][]byte, ops []string) string {
+	b := txDataBuilder.NewBuilder()
+	b.Func(fn)
+	for i, a := range args {
+		op := "bytes"
+		if i < len(ops) {
+			op = ops[i]
+		}
+		switch op {
+		case "int64":
+			b.Int64(new(big.Int).SetBytes(a).Int64())
+		case "int":
+			b.Int(int(new(big.Int).SetBytes(a).Int64()))
+		case "bigint":
+			b.BigInt(new(big.Int).SetBytes(a))
+		case "byte":
+			if len(a) == 1 {
+				b.Byte(a[0])
+			} else {
+				b.Bytes(a)
+			}
+		case "str":
+			b.Str(string(a))
+		default:
+			b.Bytes(a)
+		}
+	}
+	return b.ToString()
 }
 
 // CheckBuilt: a transaction string produced by the repository's tx-data builder must be the
